@@ -145,6 +145,24 @@ def signature(pid, code, idx, trace):
     """A narrow description of the failing situation: property/code/cause."""
     if code in OVERDUE:
         return "%s/%d/overdue" % (pid, code)
+    if code in (201, 202):
+        # root cause of an unbacked / doubled claim: the latest event before it that destroyed or replaced a record
+        ops = {}
+        for k in range(min(idx, len(trace) - 1), -1, -1):
+            f = trace[k].split()
+            if f[1] in ("expire", "extput", "extdel"):
+                return "%s/%d/after-%s" % (pid, code, f[1])
+            if f[1] == "apply" and f[3] == "0":
+                op = f[2]
+                for l in trace[:k]:
+                    g = l.split()
+                    if g[1] == "issue" and g[3] == op:
+                        if g[4] == "4":
+                            return "%s/%d/after-site%s-kind4" % (pid, code, g[5])
+                        if g[4] == "2" and g[5] == "2":
+                            return "%s/%d/after-site2-kind2" % (pid, code)
+                        break
+        return "%s/%d/no-record-event" % (pid, code)
     try:
         t, kind, a = parse_ev(trace[idx])
     except Exception:
